@@ -59,13 +59,21 @@ def convertToInt (xs : List Rat) : List Nat :=
 /-- `image[np.nonzero(image)]` -/
 def nonzero (img : Image) : List Nat := img.data.toList.filter (fun v => v != 0)
 
+/-- insertion into a sorted list (structural, so that concrete instances reduce by `decide`) -/
+def insertSorted (x : Nat) : List Nat → List Nat
+  | [] => [x]
+  | y :: ys => if x ≤ y then x :: y :: ys else y :: insertSorted x ys
+
+/-- `np.sort` (insertion sort: quadratic, adequate for the image sizes driven here) -/
+def sortNat (l : List Nat) : List Nat := l.foldr insertSorted []
+
 /-- `np.percentile(xs, pct)` with the default linear interpolation, exact: virtual index
 `(n−1)·pct/100`, `lo = floor`, result `a[lo] + (a[lo+1] − a[lo])·frac`.  `none` for `[]`. -/
 def percentileOf (xs : List Nat) (pct : Rat) : Option Rat :=
   let n := xs.length
   if n = 0 then none
   else
-    let s := (xs.mergeSort (fun a b => decide (a ≤ b))).toArray
+    let s := (sortNat xs).toArray
     let pos : Rat := ((n - 1 : Nat) : Rat) * pct / 100
     let lo := pos.floor.toNat
     let g : Rat := pos - (lo : Rat)
@@ -181,17 +189,17 @@ def dropsAux (sep : List Rat) : List (Nat × Feat) → List Nat
     rest.filterMap (fun b => if close sep a.2 b.2 then some (pairDrop a b) else none)
       ++ dropsAux sep rest
 
-/-- remove adjacent duplicates (of a sorted list) -/
-def dedupAdj : List Nat → List Nat
-  | [] => []
-  | [x] => [x]
-  | x :: y :: r => if x = y then dedupAdj (y :: r) else x :: dedupAdj (y :: r)
+/-- `np.unique(d)` for indices `< n`: mark every entry of `d`, list the marked indices in
+increasing order -/
+def uniqueSorted (n : Nat) (d : List Nat) : List Nat :=
+  let marks := d.foldl (fun (m : Array Bool) i => m.setIfInBounds i true) (Array.replicate n false)
+  (List.range n).filter (fun i => marks.getD i false)
 
 /-- mirrors find.py:16-52: sorted set (`np.unique`) of the indices to drop.  Nothing is dropped
 when some separation is 0 (find.py:23). -/
 def whereClose (sep : List Rat) (fs : List Feat) : List Nat :=
   if sep.any (fun s => s == 0) then []
-  else dedupAdj ((dropsAux sep (indexFrom 0 fs)).mergeSort (fun a b => decide (a ≤ b)))
+  else uniqueSorted fs.length (dropsAux sep (indexFrom 0 fs))
 
 /-- mirrors find.py:55-60 `np.delete(pos, to_drop, axis=0)` -/
 def dropClose (sep : List Rat) (fs : List Feat) : List Feat :=
